@@ -593,7 +593,8 @@ fpdec = {{ path = "{REPO}" }}
         for idx, lit in items:
             if idx in seps:
                 lit = lit[0] + seps[idx] + lit[1:]
-            body.append(f"    {{ let d: Decimal = Dec!({lit}); println!(\"{idx} {{}} {{}}\", d.coefficient(), d.n_frac_digits()); }}")
+            # a `const` item: the macro's expansion must be a constant expression (C18: "compiles to a constant")
+            body.append(f"    {{ const D: Decimal = Dec!({lit}); println!(\"{idx} {{}} {{}}\", D.coefficient(), D.n_frac_digits()); }}")
         body.append("}")
         (crate / "src/main.rs").write_text("\n".join(body) + "\n")
 
